@@ -9,9 +9,11 @@ package fans
 //@ ghost var lastPwm gmap[int]int
 //@ ghost var modeWrites gmap[int]int
 //@ ghost var lastMode gmap[int]int
+//@ ghost var lastRpmRead int
+//@ ghost var supportsResult gmap[int]bool
 
 // ---- well-formed fan objects (established by NewFan) ----------------------------------------------
-//@ pure hwWF(h *HwMonFan) bool = h != nil && h.Config.HwMon != nil && h.Config.HwMon.PwmPath != h.Config.HwMon.PwmEnablePath
+//@ pure hwWF(h *HwMonFan) bool = h != nil && h.Config.HwMon != nil && h.Config.HwMon.PwmPath != h.Config.HwMon.PwmEnablePath && (h.FanCurveData != nil ==> *h.FanCurveData != nil)
 //@ pure fileWF(h *FileFan) bool = h != nil && h.Config.File != nil
 //@ pure cmdWF(h *CmdFan) bool = h != nil && h.Config.Cmd != nil && h.Config.Cmd.SetPwm != nil && h.Config.Cmd.GetPwm != nil
 //@ pure fanWF(fan Fan) bool = fan != nil && (fan is *HwMonFan ==> hwWF(fan.(*HwMonFan))) && (fan is *FileFan ==> fileWF(fan.(*FileFan))) && (fan is *CmdFan ==> cmdWF(fan.(*CmdFan)))
@@ -66,10 +68,14 @@ package fans
 //@   modifies fan.Pwm, lastReadFailed
 
 //@ func (*HwMonFan).GetRpm
+//@   ghostret lastRpmRead := result
+//@   ensures lastRpmRead == result
 //@   returns (result, err)
 //@   requires hwWF(fan)
 //@   ensures err != nil ==> result == 0
-//@   modifies fan.Rpm, lastReadFailed
+//@   ensures err == nil ==> fan.Rpm == result
+//@   ensures err != nil ==> fan.Rpm == old(fan.Rpm)
+//@   modifies fan.Rpm, lastReadFailed, lastRpmRead
 
 //@ func (*HwMonFan).SetPwm
 //@   requires hwWF(fan)
@@ -86,8 +92,10 @@ package fans
 //@   modifies lastReadFailed
 
 //@ func (*HwMonFan).Supports
+//@   ghostret supportsResult[feature] := result
+//@   ensures supportsResult == old(supportsResult)[feature := result]
 //@   requires hwWF(fan)
-//@   modifies lastReadFailed
+//@   modifies lastReadFailed, supportsResult
 
 // ======================================= FileFan ====================================================
 
@@ -112,15 +120,21 @@ package fans
 //@   ensures same(result, float64(fan.Rpm))
 //@   modifies nothing
 //@ func (*FileFan).SetRpmAvg
+//@   ensures fan.Rpm == int(rpm)
 //@   modifies fan.Rpm
 //@ func (*FileFan).GetPwm
 //@   requires fileWF(fan)
 //@   ensures err != nil ==> fan.Pwm == old(fan.Pwm)
 //@   modifies fan.Pwm, lastReadFailed
 //@ func (*FileFan).GetRpm
+//@   returns (result, err)
+//@   ghostret lastRpmRead := result
+//@   ensures lastRpmRead == result
 //@   requires fileWF(fan)
 //@   ensures err != nil ==> result == 0
-//@   modifies fan.Rpm, lastReadFailed
+//@   ensures err == nil ==> fan.Rpm == result
+//@   ensures err != nil ==> fan.Rpm == old(fan.Rpm)
+//@   modifies fan.Rpm, lastReadFailed, lastRpmRead
 //@ func (*FileFan).SetPwm
 //@   requires fileWF(fan)
 //@   ghostdo pwmWrites[fan] := pwmWrites[fan] + 1
@@ -128,9 +142,11 @@ package fans
 //@   ensures pwmWrites == old(pwmWrites)[fan := old(pwmWrites)[fan] + 1] && lastPwm == old(lastPwm)[fan := pwm]
 //@   modifies pwmWrites, lastPwm, fileInt
 //@ func (*FileFan).Supports
+//@   ghostret supportsResult[feature] := result
+//@   ensures supportsResult == old(supportsResult)[feature := result]
 //@   requires fileWF(fan)
 //@   ensures feature == FeatureControlMode ==> !result
-//@   modifies lastReadFailed
+//@   modifies lastReadFailed, supportsResult
 
 // ======================================= CmdFan =====================================================
 
@@ -155,6 +171,7 @@ package fans
 //@   ensures same(result, float64(fan.Rpm))
 //@   modifies nothing
 //@ func (*CmdFan).SetRpmAvg
+//@   ensures fan.Rpm == int(rpm)
 //@   modifies fan.Rpm
 //@ func (*CmdFan).GetPwm
 //@   props C19
@@ -162,10 +179,15 @@ package fans
 //@   ensures err != nil ==> fan.Pwm == old(fan.Pwm)
 //@   modifies fan.Pwm, procWorld, started
 //@ func (*CmdFan).GetRpm
+//@   ghostret lastRpmRead := result
+//@   ensures lastRpmRead == result
 //@   props C19
 //@   returns (result, err)
 //@   requires cmdWF(fan)
-//@   modifies fan.Rpm, procWorld, started
+//@   ensures err == nil && fan.Config.Cmd.GetRpm != nil ==> fan.Rpm == result
+//@   ensures fan.Config.Cmd.GetRpm == nil ==> fan.Rpm == old(fan.Rpm) && result == 0 && err == nil
+//@   ensures err != nil ==> fan.Rpm == old(fan.Rpm)
+//@   modifies fan.Rpm, procWorld, started, lastRpmRead, supportsResult
 //@ func (*CmdFan).SetPwm
 //@   props C19
 //@   requires cmdWF(fan)
@@ -176,11 +198,13 @@ package fans
 //@   loop 1 "for _, arg := range conf.Args"
 //@     invariant -1 <= rangeindex && arrayOf(args) >= old(W)
 //@ func (*CmdFan).Supports
+//@   ghostret supportsResult[feature] := result
+//@   ensures supportsResult == old(supportsResult)[feature := result]
 //@   requires cmdWF(fan)
 //@   ensures feature == FeatureControlMode ==> !result
 //@   ensures feature == FeaturePwmSensor ==> result
 //@   ensures feature == FeatureRpmSensor ==> result == (fan.Config.Cmd.GetRpm != nil)
-//@   modifies nothing
+//@   modifies supportsResult
 
 // ---- setters --------------------------------------------------------------------------------------
 //@ func (*HwMonFan).SetMinPwm
@@ -281,4 +305,15 @@ package fans
 //@   props C13
 //@   returns (fan, err)
 //@   ensures[C13.new] config.HwMon != nil ==> err == nil && fan is *HwMonFan && fan.(*HwMonFan) != nil && hwCfg(fan.(*HwMonFan)) && fresh(fan.(*HwMonFan))
+//@   modifies nothing
+
+// ---- RPM bookkeeping (C10) ------------------------------------------------------------------------------
+//@ pure rpmAvg(fan Fan) float64 = fan is *HwMonFan ? fan.(*HwMonFan).RpmMovingAvg : (fan is *FileFan ? float64(fan.(*FileFan).Rpm) : float64(fan.(*CmdFan).Rpm))
+//@ func (*HwMonFan).UpdateFanRpmCurveValue
+//@   requires fan.FanCurveData != nil ==> *fan.FanCurveData != nil
+//@   ensures fan.FanCurveData != nil && *fan.FanCurveData != nil
+//@   modifies fan.FanCurveData, (*fan.FanCurveData)[_]
+//@ func (*FileFan).UpdateFanRpmCurveValue
+//@   modifies nothing
+//@ func (*CmdFan).UpdateFanRpmCurveValue
 //@   modifies nothing
